@@ -1,6 +1,6 @@
 (* C06 — property theorems (statements only).  Owner: builder-parse. *)
 From Coq Require Import List NArith Bool Arith.
-From DV Require Import C06.Model C06.Lr C06.Proofs C06.TablesProofs.
+From DV Require Import C06.Model C06.Lr C06.Proofs C06.StrProofs C06.TablesProofs.
 Import ListNotations.
 
 (* the committed LALR tables (regenerated from feel-parser/src/lalr.rs on this run) give, on every ordered pair of
@@ -47,6 +47,13 @@ Example C06_nonvacuous :
   = [TLp; TAtom 1; TOp Add; TOp Sub; TOp Sub; TAtom 3; TRp; TOp Mul; TLp; TAtom 5; TBetween; TAtom 7; TOp And; TAtom 9; TBand; TAtom 11; TRp].
 Proof. vm_compute. reflexivity. Qed.
 Print Assumptions C06_nonvacuous.
+
+(* string literals: every string of Unicode scalar values, written with any choice of spelling per character (raw, short escape,
+   \uXXXX, \UXXXXXX, surrogate pair; upper or lower case hexadecimal digits), is decoded back to itself by the model of
+   consume_string / consume_unicode (UTF-8 bytes computed with the code's masks and shifts, then from_utf8) *)
+Theorem C06_unescape_escape : forall sps s, Forall (fun c => scalar c = true) s -> unescape (escape sps s) = Some s.
+Proof. exact unescape_escape. Qed.
+Print Assumptions C06_unescape_escape.
 
 Theorem C06_unescape_surrogate_orig_refuted :
   unescape surrogate_witness = Some [128591%N] /\ unescape_orig surrogate_witness = None.
